@@ -5,7 +5,7 @@
    property directly.  Termination of the MODEL is by construction (structural recursion on fuel); that the fuel the
    driver passes suffices is observed on every run (no FUEL outcome), not yet proved.  Proved so far - the tokenizer's
    behaviour on the token classes the top-level loop dispatches on (for every amount of leading horizontal whitespace): *)
-Require Import Bebop.front.Tok Bebop.front.TokInv Bebop.front.LexInv Bebop.front.Parse Bebop.front.ParseInv Bebop.front.FmtInv Bebop.front.MsgInv Bebop.front.GenInv Bebop.front.Items Bebop.front.TyInv Bebop.front.TyMsg Bebop.front.TyItems Bebop.front.Schema.
+Require Import Bebop.front.Tok Bebop.front.TokInv Bebop.front.LexInv Bebop.front.Parse Bebop.front.ParseInv Bebop.front.FmtInv Bebop.front.MsgInv Bebop.front.GenInv Bebop.front.Items Bebop.front.TyInv Bebop.front.TyMsg Bebop.front.TyItems Bebop.front.TyUnion Bebop.front.TyUnionItem Bebop.front.Schema.
 From Coq Require Import List NArith.
 Import ListNotations.
 
@@ -112,7 +112,8 @@ Print Assumptions C11_records.
 
 (* And with ENUMS and CONTAINER TYPES, through the item framework of front/GenInv.v (each kind of definition contributes its
    tokens, what it adds to the File and one step lemma for the top-level loop; front/Items.v and front/TyItems.v have the
-   instances): a schema is any sequence of struct, readonly struct, message and enum definitions; a field type is an
+   instances; front/TyUnion.v + front/TyUnionItem.v the union): a schema is any sequence of struct, readonly struct, message,
+   enum and (non-empty) union definitions, union branches being structs or messages under distinct indices; a field type is an
    identifier, array[T], map[K, V] with a primitive key, or any of those followed by any number of [] - nested to ANY depth
    (front/TyInv.v: read_field_type on the tokens of a type expression, by induction on the expression); enums untyped,
    members with plain decimal values; the readonly marker lands on the struct it precedes and on no other.  For EVERY such
@@ -126,8 +127,14 @@ Definition C11_schema_statement : Prop :=
      structs (schema_file dl) = flat_map structs_of dl /\
      messages (schema_file dl) = flat_map messages_of dl /\
      enums (schema_file dl) = flat_map enums_of dl /\
-     unions (schema_file dl) = [] /\ consts (schema_file dl) = [] /\ imports (schema_file dl) = [] /\ gopackage (schema_file dl) = []) /\
+     unions (schema_file dl) = flat_map unions_of dl /\ consts (schema_file dl) = [] /\ imports (schema_file dl) = [] /\ gopackage (schema_file dl) = []) /\
   (* what the pieces are *)
+  (forall nm bl k, unions_of (SUnion nm bl k) =
+     [{| un_name := ibytes nm; un_comment := []; un_opcode := 0;
+         un_fields := map (fun b => match b with
+                                    | LUs x bn fl => (xv x, {| u_msg := None; u_struct := Some (tstruct_of (ibytes bn) (map btf fl)); u_tags := []; u_depmsg := []; u_dep := false |})
+                                    | LUm x bn fl => (xv x, {| u_msg := Some (tmessage_of (ibytes bn) (map btm fl)); u_struct := None; u_tags := []; u_depmsg := []; u_dep := false |})
+                                    end) bl |}]) /\
   (forall nm fl k, structs_of (SStruct nm fl k) =
      [{| s_name := ibytes nm; s_comment := []; s_opcode := 0; s_readonly := false;
          s_fields := map (fun f => {| f_type := ft_of (bty (fst f)); f_name := ibytes (snd f); f_comment := []; f_tags := []; f_depmsg := []; f_dep := false |}) fl |}]) /\
@@ -148,9 +155,11 @@ Proof.
   split; [|split; [exact schema_file_spec|]].
   - intros dl lay tail H1 H2 H3 H4 H5.
     destruct (schema_laws dl lay tail H1 H2 H3 H4 H5) as (y & _ & _ & _ & _ & Hr). exact Hr.
-  - repeat split; intros; unfold structs_of, messages_of, tstruct_of, tstruct_of_ro, tmessage_of; rewrite ?map_map; reflexivity.
+  - split.
+    { intros nm bl k. unfold unions_of, union_of. rewrite map_map. do 2 f_equal. apply map_ext. intros [x bn fl|x bn fl]; reflexivity. }
+    repeat split; intros; unfold structs_of, messages_of, tstruct_of, tstruct_of_ro, tmessage_of; rewrite ?map_map; reflexivity.
 Qed.
-(* the hypotheses are met (an enum, a readonly struct with a map of arrays, a message with nested containers, an empty struct;
+(* the hypotheses are met (an enum, a readonly struct with a map of arrays, a message with nested containers, a union, an empty struct;
    blank lines), and the conclusion computed *)
 Example C11_schema_witness :
   let E := {| ic := 69%N; itl := [] |} in let R := {| ic := 82%N; itl := [111%N] |} in let M := {| ic := 77%N; itl := [] |} in
@@ -161,6 +170,7 @@ Example C11_schema_witness :
   let dl := [SEnum E [(A, one); (B, n200)] 1;
              SReadonly R [(LMap str (LArray (LSimple i32 1) 0) 2, x); (LSimple i32 0, y)] 0;
              SMessage M [(n200, (LArray (LMap i32 (LSimple R 0) 0) 1, x)); (one, (LSimple E 3, y))] 2;
+             SUnion {| ic := 85%N; itl := [] |} [LUs n200 A [(LArray (LSimple i32 0) 0, x)]; LUm one B [(one, (LSimple str 1, y))]] 1;
              SStruct S [] 0] in
   let lay := glayout (map xel_of dl) in
   Forall sdefn_ok dl /\ map snd lay = schema_lexemes dl /\ sep_ok lay /\
